@@ -525,25 +525,32 @@ func init() {
 			if fn == nil {
 				return
 			}
+			// the take, the hook and the unlocks may live in publish or in a helper method it calls (flushFns); an
+			// event inside a helper is ordered against events elsewhere by the helper's call site in publish
 			var take ssa.Instruction
-			for _, b := range fn.Blocks {
-				for _, ins := range b.Instrs {
-					if st, ok := ins.(*ssa.Store); ok && prog.IsNilConst(st.Val) {
-						if fa, isFA := st.Addr.(*ssa.FieldAddr); isFA && prog.FieldVar(fa) != nil && prog.FieldVar(fa).Name() == "events" {
-							take = st
+			var hooks, unlocks []ssa.CallInstruction
+			host := map[ssa.Instruction]*ssa.Function{}
+			for _, f := range x.flushFns(fn) {
+				for _, b := range f.Blocks {
+					for _, ins := range b.Instrs {
+						if st, ok := ins.(*ssa.Store); ok && prog.IsNilConst(st.Val) {
+							if fa, isFA := st.Addr.(*ssa.FieldAddr); isFA && prog.FieldVar(fa) != nil && prog.FieldVar(fa).Name() == "events" {
+								take = st
+								host[st] = f
+							}
 						}
 					}
 				}
-			}
-			var hooks []ssa.CallInstruction
-			var unlocks []ssa.CallInstruction
-			for _, c := range prog.CallsIn(fn) {
-				if f := prog.LoadedField(c.Common().Value); f != nil && f.Name() == "onPublish" {
-					hooks = append(hooks, c)
-				}
-				if o := prog.CallObj(c); o != nil && o.Name() == "Unlock" {
-					if _, isD := c.(*ssa.Defer); !isD {
-						unlocks = append(unlocks, c)
+				for _, c := range prog.CallsIn(f) {
+					if fl := prog.LoadedField(c.Common().Value); fl != nil && fl.Name() == "onPublish" {
+						hooks = append(hooks, c)
+						host[c] = f
+					}
+					if o := prog.CallObj(c); o != nil && o.Name() == "Unlock" {
+						if _, isD := c.(*ssa.Defer); !isD {
+							unlocks = append(unlocks, c)
+							host[c] = f
+						}
 					}
 				}
 			}
@@ -551,14 +558,42 @@ func init() {
 				x.fail("func="+prog.FnName(fn)+" shape", x.fpos(fn), "publish no longer takes the pending batch and calls the onPublish hook")
 				return
 			}
+			ci := x.calls()
+			// sitesOf: where an event happens from publish's point of view
+			sitesOf := func(ins ssa.Instruction) []ssa.Instruction {
+				if host[ins] == fn {
+					return []ssa.Instruction{ins}
+				}
+				var out []ssa.Instruction
+				for _, e := range ci.out[fn] {
+					if e.Callee == host[ins] && e.Site != nil {
+						out = append(out, e.Site)
+					}
+				}
+				return out
+			}
+			// before(a, b): a may come before b in one run of publish
+			before := func(a, b ssa.Instruction) bool {
+				if host[a] == host[b] {
+					return prog.MayPrecede(a, b)
+				}
+				for _, sa := range sitesOf(a) {
+					for _, sb := range sitesOf(b) {
+						if sa == sb || prog.MayPrecede(sa, sb) {
+							return true
+						}
+					}
+				}
+				return false
+			}
 			for i, h := range hooks {
 				bad := ""
 				for _, u := range unlocks {
-					if prog.MayPrecede(take, u) && prog.MayPrecede(u, h) {
+					if before(take, u) && before(u, h) {
 						bad = x.pos(u)
 					}
 				}
-				if !prog.MayPrecede(take, h) {
+				if !before(take, h) {
 					bad = "the hook runs before the batch is taken"
 				}
 				x.check(bad == "", fmt.Sprintf("func=%s onPublish#%d same-critical-section-as-the-take", prog.FnName(fn), i+1), x.pos(h),
@@ -1258,6 +1293,15 @@ func init() {
 										}
 									case *ssa.Return:
 										returns = true
+									case *ssa.Call:
+										// a helper of the RPC layer that does the send (notifyClosed(merged, done))
+										if callee := t.Call.StaticCallee(); callee != nil {
+											for f := range x.closureOf([]*ssa.Function{callee}, []string{"server/rpc"}) {
+												if sendsOnChannel(f) {
+													reports = true
+												}
+											}
+										}
 									}
 								}
 							}
@@ -1276,6 +1320,25 @@ func init() {
 				x.C.Vacuous(x.id()+" receives from a subscription", n, 3)
 			}
 		}})
+}
+
+// sendsOnChannel: fn sends on a channel (a send statement or a send arm of a select).
+func sendsOnChannel(fn *ssa.Function) bool {
+	for _, b := range fn.Blocks {
+		for _, ins := range b.Instrs {
+			switch t := ins.(type) {
+			case *ssa.Send:
+				return true
+			case *ssa.Select:
+				for _, st := range t.States {
+					if st.Dir == types.SendOnly {
+						return true
+					}
+				}
+			}
+		}
+	}
+	return false
 }
 
 func init() {
